@@ -46,6 +46,8 @@ OPTIONS = {
     "expression_types(partial)": ('<p tal:content="fmt:Hello ${name}!">x</p>', {"name": "World"}, "upper", "lower"),
     # names of extra builtins whose concatenations coincide
     "extra_builtins(names)": ("<p>${ab | 'no-ab'} ${c | 'no-c'} ${a | 'no-a'} ${bc | 'no-bc'} ${abc | 'no-abc'}</p>", {}, "ab|c", "a|bc"),
+    # the same names bound to other values: the entry may be shared, the values may not
+    "extra_builtins(values)": ("<p>${site} ${shout('Ab')}</p>", {}, "alpha", "beta"),
     "extra_builtins(names 2)": ("<p>${ab | 'no-ab'} ${c | 'no-c'} ${a | 'no-a'} ${bc | 'no-bc'} ${abc | 'no-abc'}</p>", {}, "abc", "a|bc"),
 }
 
@@ -82,6 +84,8 @@ def case_for(option, value, body, kwargs, cls="PageTemplate", filename=None):
         opts = {"_exprtype": value}
     elif option is not None and option.startswith("extra_builtins(names"):
         opts = {"_xb": value}
+    elif option == "extra_builtins(values)":
+        opts = {"_xbv": value}
     elif option is not None:
         opts = {option: value}
     return {"cls": cls, "body": body, "options": opts, "kwargs": kwargs, "filename": filename}
